@@ -341,6 +341,9 @@ func (m *model) onReq(opIdx int, c *clientRec, snap snapshot) {
 			m.roles[c.ID] = &role{kind: "waiter", g: g}
 			m.stats.Waiters++
 		case "pending":
+			if g.reason == "lapsed" {
+				m.viol("C07", "several-probes", "op %d: after the hit-for-pass period lapsed request %d probes the upstream while request %d is already probing (the key must be probed by a single request)", opIdx, c.ID, g.fetcher)
+			}
 			m.viol("C01", "second-fetch", "op %d: request %d reached the upstream while request %d is already fetching the same key", opIdx, c.ID, g.fetcher)
 			m.roles[c.ID] = &role{kind: "free", g: g}
 		default:
@@ -359,6 +362,8 @@ func (m *model) onReq(opIdx int, c *clientRec, snap snapshot) {
 				p, o := "C01", "fresh-not-served"
 				if st == "blocked" {
 					p, o = "C02", "blocked-on-fresh"
+				} else if g.reason == "lapsed" {
+					m.viol("C07", "not-cacheable-after-probe", "op %d: the probe after the hit-for-pass period got a cacheable answer but request %d, %.3fs later, was not served from cache (state %s)", opIdx, c.ID, e, st)
 				}
 				m.viol(p, o, "op %d: request %d arrived %.3fs after the fetch (lifetime %ds) but was not served from cache (state %s)", opIdx, c.ID, e, g.L, st)
 				m.roles[c.ID] = &role{kind: "free", g: g}
